@@ -9,6 +9,18 @@ MODELLED = ('Trusted: Coq 8.16.1 kernel (no axioms: every theorem in coq/Props/%
             'the Python harness abstraction/canonicalisation. ')
 
 CHECKS = {
+    'C09': dict(
+        text='Theorems at the dictionary level for any value type: write-load-write is idempotent, unknown kinds and # '
+             'keys never affect what is written for the other kinds, and the written form depends only on the surviving '
+             'kind->value map (the kind list and its order are regenerated from the source and pinned). The text level '
+             '(valid UTF-8 JSON, no trailing whitespace, identical text over 1-3 write/load cycles, identical verdicts via '
+             'dict / path / re-serialised text on generated data) is checked on generated hand-written and discovered '
+             'constraint sets; the extracted model predicts the keys and order of every written field.',
+        note='partial: the text of numbers, dates and strings (json.dumps/loads, str(datetime)/get_date) is exercised by '
+             'the round-trip oracle, not modelled.',
+        technique='Coq proof (dump/load key algebra) + translator-pinned kind order + round-trip oracle and '
+                  'extracted-model correspondence',
+        design='7 C09'),
     'C06': dict(
         text='Theorems over the model of the detection pass: a flag column exists only for a constraint that plain '
              'verification fails; per kind the flag is false exactly on the violating records (min/max, type -> all, '
